@@ -21,7 +21,9 @@ def _runs(tier):
     return [
         {"harness": "c14_rej", "args": [], "budget": 600, "jobs": 4},
         {"harness": "c14_oom", "args": ["--modes", "alloc,abandon", "--max-dry-ms", "250"], "budget": 2400, "jobs": 16},
-        {"harness": "c14_oom", "args": ["--modes", "alloc", "--mag", "1000000007000000000000000000000000000009", "--max-dry-ms", "250"], "budget": 2400, "jobs": 16},
+        {"harness": "c14_oom", "args": ["--modes", "alloc", "--mag", "1000000007000000000000000000000000000009", "--max-dry-ms", "250",
+                                          # with 40-digit data the parametric solver needs minutes per run on this one
+                                          "--skip", "PIP_Problem::solve/cuts"], "budget": 2400, "jobs": 16},
         {"harness": "c14_i8", "args": ["--modes", "overflow,alloc"], "budget": 900, "jobs": 16},
     ]
 
